@@ -77,6 +77,27 @@ static int cmd_genplan(int argc, char **argv) {
 	return 0;
 }
 
+// generates plans and checks them against the contract model without executing them (the generators must never leave the
+// documented contract; this covers far more plans than a run budget does)
+static int cmd_lint(int argc, char **argv) {
+	std::string prop = arg_s(argc, argv, "--property", "C03");
+	std::string tier = arg_s(argc, argv, "--tier", "quick");
+	std::string mode = arg_s(argc, argv, "--mode", "");
+	uint64_t seed = strtoull(arg_s(argc, argv, "--seed", "1"), nullptr, 10);
+	uint64_t from = strtoull(arg_s(argc, argv, "--from", "0"), nullptr, 10);
+	uint64_t to = strtoull(arg_s(argc, argv, "--to", "1000"), nullptr, 10);
+	gen::Context gc; gc.property = prop; gc.tier = tier; gc.mode = mode;
+	gen::init_context(gc);
+	uint64_t bad = 0, n = 0, N = exec::dataset_items();
+	for (uint64_t idx = from; idx < to; ++idx, ++n) {
+		ops::Plan plan = gen::generate(gc, rt::mix64(rt::mix_str(seed, prop.c_str()), idx), idx);
+		ops::Annotated a = ops::annotate(plan, N);
+		if (!a.valid) { if (++bad <= 10) printf("{\"type\":\"invalid\",\"index\":%llu,\"reason\":\"%s\"}\n", (unsigned long long)idx, rt::json_escape(a.error).c_str()); }
+	}
+	printf("{\"type\":\"lint\",\"property\":\"%s\",\"tier\":\"%s\",\"mode\":\"%s\",\"plans\":%llu,\"invalid\":%llu}\n", prop.c_str(), tier.c_str(), mode.c_str(), (unsigned long long)n, (unsigned long long)bad);
+	return bad ? 1 : 0;
+}
+
 static int cmd_worker(int argc, char **argv) {
 	std::string prop = arg_s(argc, argv, "--property", "C03");
 	std::string tier = arg_s(argc, argv, "--tier", "quick");
@@ -148,6 +169,7 @@ int main(int argc, char **argv) {
 	if (cmd == "replay") rc = cmd_replay(argc, argv);
 	else if (cmd == "worker") rc = cmd_worker(argc, argv);
 	else if (cmd == "genplan") rc = cmd_genplan(argc, argv);
+	else if (cmd == "lint") rc = cmd_lint(argc, argv);
 	else if (cmd == "info") { printf("{\"config\":\"%s\",\"variant\":\"%s\",\"dataset_items\":%llu}\n", exec::config_name(), exec::variant_name(), (unsigned long long)exec::dataset_items()); rc = 0; }
 	fflush(stdout);
 	seam::tsan_ignore_end();
